@@ -4,6 +4,7 @@ cd /verif
 out=seeded/RESULTS.txt; : > $out
 for d in seeded/*/; do
   id=$(basename $d); prop=${id%%_*}
+  if grep -q '"status": "obsolete' $d/meta.json 2>/dev/null; then echo "$id obsolete (made harmless by a later fix, see meta.json)" >> $out; continue; fi
   if ! git -C /repo apply --check /verif/$d/patch.diff 2>/dev/null; then echo "$id does-not-apply" >> $out; continue; fi
   r=$(tools/seedtest.sh /verif/$d/patch.diff $prop 2>&1 | grep -E "^(VIOLATION|C[0-9]+ quick|CHECK-ERROR)" | tr '\n' ' ' | cut -c1-260)
   case "$r" in *VIOLATION*no-failing-input-found*) v=caught-no-input;; *VIOLATION*) v=caught;; *CHECK-ERROR*) v=error;; *) v=MISSED;; esac
